@@ -286,7 +286,7 @@ Fixpoint shapes (A : linop) : result (list Z * list Z) :=
   | Transpose i axes =>
       match axes with
       | None => finish (rev i) i
-      | Some ax => finish (map (fun a => pyget i a) ax) i
+      | Some ax => finish (map (fun a => getZ i (a mod lenZ i)) ax) i     (* __init__ normalises: axes = [a % ndim] *)
       end
   | FFT s _ _ | IFFT s _ _ => finish s s
   | MatMul i m adj => o <- matmul_oshape i (ashape_of m) adj ;; finish o i
@@ -352,7 +352,8 @@ Fixpoint adj (A : linop) : linop :=
   | Transpose i axes =>
       match axes with
       | None => Transpose (rev i) None
-      | Some ax => Transpose (map (fun a => pyget i a) ax) (Some (argsort ax))
+      | Some ax => let pn := map (fun a => a mod lenZ i) ax in
+                   Transpose (map (fun a => getZ i a) pn) (Some (argsort pn))
       end
   | FFT s ax c => IFFT s ax c
   | IFFT s ax c => FFT s ax c
